@@ -22,7 +22,7 @@ PROP = 'C14'
 EXPLANATION = 'C14: operations enumerated from the catalogue; all coefficient values symbolic.'
 
 
-def h_unchanged(ctx, opname, D, P):
+def h_unchanged(ctx, opname, D, P, layout='C'):
     algopy = symx.load_algopy()
     op = O.by_name()[opname]
     raw = [O.make_input(ctx, a, 'a%d' % k, D, P) for k, a in enumerate(op.args)]
@@ -35,7 +35,7 @@ def h_unchanged(ctx, opname, D, P):
             for i in range(z.shape[1]):
                 for j in range(i):
                     ctx.assume(z[p_, i] != z[p_, j])
-    objs = [O.wrap(ctx, algopy, a, r) for a, r in zip(op.args, raw)]
+    objs = [O.wrap(ctx, algopy, a, r, layout) for a, r in zip(op.args, raw)]
     res = op.fn(algopy, *objs)
     if op.group != 'shape':
         # a computed result is a new array: updating it in place must not touch an operand
@@ -195,6 +195,10 @@ def units(tier, seed):
     D, P = (3, 2) if tier == 'quick' else (6, 3)
     for op in O.catalogue():
         add('unchanged/%s/D%d,P%d' % (op.name, D, P), 'h_unchanged', opname=op.name, D=D, P=P)
+    for op in O.catalogue():
+        if any(len(a.shape) >= 2 for a in op.args):
+            # matrices in Fortran order: the layout LAPACK/scipy wrappers overwrite in place
+            add('unchanged, Fortran-ordered matrices/%s/D2,P2' % op.name, 'h_unchanged', opname=op.name, D=2, P=2, layout='F')
     for opn in BIN:
         for form, shp in [('x op x', (2,)), ('x op x', (2, 2)), ('x op x[::-1]', (3,)), ('x op x.T', (2, 2)), ('x op x[0]', (2, 2)),
                           ('x op= x', (2,)), ('x op= x', (2, 2)), ('x op= x[::-1]', (3,)), ('x op= x.T', (2, 2)),
@@ -206,4 +210,19 @@ def units(tier, seed):
     for pn in ['x*x', 'x/(1+x*x)', 'exp', 'buffer', 'buffer-overwrite', 'tan(x)*x', 'dot(mat,mat)', 'inv', 'sum', 'x[1:]*x[:-1]']:
         add('tracer inputs and seeds/%s' % pn, 'h_tracer_inputs', pname=pn, D=2, P=2)
     add('tracer two dependent outputs', 'h_two_outputs', D=2, P=2)
+    # factorisations: the C08 harnesses end with `input unchanged`; here with C- and Fortran-ordered
+    # coefficient matrices (LAPACK wrappers called with overwrite_a=True destroy the latter)
+    for nm, func, kw in [('qr/3x2', 'h_qr', dict(M=3, N=2, D=2, P=1)), ('qr/2x2', 'h_qr', dict(M=2, N=2, D=2, P=2)),
+                         ('qr_full/3x2', 'h_qr', dict(M=3, N=2, D=2, P=1, full=True)),
+                         ('qr_full/2x2', 'h_qr', dict(M=2, N=2, D=2, P=1, full=True)),
+                         ('cholesky/2x2', 'h_cholesky', dict(n=2, D=2, P=1)), ('eigh/2x2', 'h_eigh', dict(n=2, D=2, P=1)),
+                         ('lu/2x2', 'h_lu', dict(n=2, D=2, P=1, variant='lu')), ('lu_factor/2x2', 'h_lu', dict(n=2, D=2, P=1, variant='lu_factor')),
+                         ('eig/2x2', 'h_eig', dict(n=2, D=2, P=1)), ('svd/2x2', 'h_svd', dict(D=2, P=1))]:
+        for layout in ('C', 'F'):
+            oo = dict(opts, layout=layout)
+            if nm.startswith(('eig/', 'svd')):
+                oo['validate_values'] = False
+            if nm.startswith('svd'):
+                oo['crosscheck'] = False
+            out.append(Unit('C14/factorisation operand unchanged/%s/%s order' % (nm, layout), 'symx.props.c08', func, kw, oo))
     return out
